@@ -121,6 +121,42 @@ mod types {
         }
     }
 
+    /// three releases of one record, read across each other (every pair in both directions)
+    pub mod rel {
+        use desert_macro::BinaryCodec;
+        pub mod v0 {
+            use super::*;
+            #[derive(Debug, PartialEq, Clone, BinaryCodec)]
+            pub struct Job {
+                pub a: u8,
+                pub name: String,
+            }
+        }
+        pub mod v1 {
+            use super::*;
+            #[derive(Debug, PartialEq, Clone, BinaryCodec)]
+            #[evolution(FieldAdded("x", 5u32), FieldAdded("note", "n/a".to_string()))]
+            pub struct Job {
+                pub x: u32,
+                pub a: u8,
+                pub note: String,
+                pub name: String,
+            }
+        }
+        pub mod v2 {
+            use super::*;
+            #[derive(Debug, PartialEq, Clone, BinaryCodec)]
+            #[evolution(FieldAdded("x", Some(5u32)), FieldAdded("note", "n/a".to_string()), FieldMadeOptional("x"), FieldMadeOptional("name"), FieldAdded("tags", Vec::new()))]
+            pub struct Job {
+                pub x: Option<u32>,
+                pub tags: Vec<String>,
+                pub a: u8,
+                pub note: String,
+                pub name: Option<String>,
+            }
+        }
+    }
+
     /// a self-nesting declaration (decoded at depth ~50 by several threads at once)
     #[derive(Debug, PartialEq, Clone, BinaryCodec)]
     #[evolution(FieldAdded("tag", 0u8))]
@@ -315,14 +351,47 @@ fn frame_result(level: u32, n: usize) -> String {
 /// built-in generic codecs at several instantiations each (so that state hidden in generic code - a
 /// static shared by all instantiations, a per-thread memo - is met in more than one order)
 pub const N_ADT: usize = 54;
-pub const NSPECS: usize = N_ADT + 54;
+pub const NSPECS: usize = N_ADT + 54 + 9 + N_HEAVY;
+/// the last call specs are expensive (megabytes through the inflater): call histories only
+pub const N_HEAVY: usize = 1;
 
 /// two calls out of three come from the derived-type specs
 pub fn pick_spec() -> usize {
     if rt::below(3) < 2 {
         rt::below(N_ADT)
     } else {
-        N_ADT + rt::below(NSPECS - N_ADT)
+        N_ADT + rt::below(NSPECS - N_ADT - N_HEAVY)
+    }
+}
+
+/// like `pick_spec`, with the expensive specs (scenario C only: native code, one thread)
+pub fn pick_spec_history() -> usize {
+    if rt::below(40) == 0 {
+        NSPECS - N_HEAVY + rt::below(N_HEAVY)
+    } else {
+        pick_spec()
+    }
+}
+
+fn cross<W: BinarySerializer, R: BinaryDeserializer + std::fmt::Debug>(w: &W) -> String {
+    match desert::serialize_to_byte_vec(w).and_then(|b| desert::deserialize::<R>(&b)) {
+        Ok(x) => format!("ok:{x:?}"),
+        Err(e) => format!("err:{e:?}"),
+    }
+}
+
+/// a 9 MiB run through one compressed frame, decoded through the context API
+fn big_frame() -> String {
+    let content = vec![0x5au8; 9 << 20];
+    let mut out = SerializationContext::new(Vec::new());
+    if let Err(e) = out.write_compressed(&content, flate2::Compression::new(1)) {
+        return format!("err:{e:?}");
+    }
+    let bytes = out.into_output();
+    let mut ctx = DeserializationContext::new(&bytes);
+    match Frame::deserialize(&mut ctx) {
+        Ok(f) => format!("ok:{} bytes from a frame of {}", f.0.len(), bytes.len()),
+        Err(e) => format!("err:{e:?}"),
     }
 }
 
@@ -416,6 +485,18 @@ fn builtin(k: usize) -> String {
             }
             Err(e) => format!("err:{e:?}"),
         },
+        // one record at three releases: every writer/reader pair (what one decode leaves behind in
+        // pooled or cached per-chunk facts must not reach the next)
+        54 => cross::<_, rel::v1::Job>(&rel::v0::Job { a: 1, name: "zero".into() }),
+        55 => cross::<_, rel::v2::Job>(&rel::v0::Job { a: 2, name: "zero".into() }),
+        56 => cross::<_, rel::v0::Job>(&rel::v1::Job { x: 7, a: 3, note: "one".into(), name: "n1".into() }),
+        57 => cross::<_, rel::v2::Job>(&rel::v1::Job { x: 8, a: 4, note: "one".into(), name: "n1".into() }),
+        58 => cross::<_, rel::v0::Job>(&rel::v2::Job { x: Some(9), tags: vec!["t".into()], a: 5, note: "two".into(), name: Some("n2".into()) }),
+        59 => cross::<_, rel::v1::Job>(&rel::v2::Job { x: Some(7), tags: vec![], a: 6, note: "two".into(), name: Some("n2".into()) }),
+        60 => cross::<_, rel::v1::Job>(&rel::v2::Job { x: None, tags: vec![], a: 7, note: "two".into(), name: Some("n2".into()) }),
+        61 => cross::<_, rel::v1::Job>(&rel::v2::Job { x: Some(1), tags: vec!["u".into(), "u".into()], a: 8, note: "".into(), name: None }),
+        62 => cross::<_, rel::v2::Job>(&rel::v2::Job { x: None, tags: vec![], a: 9, note: "".into(), name: None }),
+        63 => big_frame(),
         _ => panic!("no built-in call spec {k}"),
     }
 }
